@@ -26,6 +26,7 @@ from ..impl import c18_usage as us
 from ..translate import c18 as tr
 
 PROPERTY = "C18"
+CASE_TIMEOUT = 300  # s of wall clock per case in pool workers (runner watchdog): a case that spins forever is a verdict, not exit 2
 THEOREM_MODULE = "NemoVerif.Theorems.C18"
 RULE = ("configuration: prefix/suffix (absent or 1-3 chars) and 0-3 stop sequences (1-3 chars) over an alphabet of 2-5 "
         "characters shared with the text, plus the configurations the library itself uses (`Bot message: \"`, `  \"`, `\"`, `\"\\n`, "
